@@ -6,9 +6,11 @@ import (
 	"fmt"
 	"os"
 	"os/exec"
+	"syscall"
 	"time"
 
 	"github.com/ulikunitz/lz"
+	"github.com/ulikunitz/lz/suffix"
 	"verif/mc/engine"
 )
 
@@ -176,7 +178,7 @@ type LoopCase struct {
 // yield-instrumented build).
 func runLoopScenario(sc LoopScenario, tier string, bound int, only []int, st *engine.Stats, col *engine.Collector) {
 	// solo traces (no scheduler installed)
-	lz.VerifYield = nil
+	lz.VerifYield, suffix.VerifYield = nil, nil
 	decBlocks := map[int][]lz.Block{}
 	solo := make([][]RecEv, len(sc.Threads))
 	for i, t := range sc.Threads {
@@ -200,12 +202,12 @@ func runLoopScenario(sc LoopScenario, tier string, bound int, only []int, st *en
 		var panicked any
 		func() {
 			defer func() { panicked = recover() }()
-			s := engine.RunInline(c, bodies, func(y func()) { lz.VerifYield = y })
+			s := engine.RunInline(c, bodies, func(y func()) { lz.VerifYield, suffix.VerifYield = y, y })
 			st.Transitions += s.Yields
 			st.Add("context_switches", s.Switch)
 			st.Max("max_yield_points_per_execution", s.Yields)
 		}()
-		lz.VerifYield = nil
+		lz.VerifYield, suffix.VerifYield = nil, nil
 		st.Execs++
 		h := uint64(14695981039346656037)
 		for _, x := range c.Cs {
@@ -292,6 +294,7 @@ func runChild(bin, id, shard, tier string, st *engine.Stats, col *engine.Collect
 	}()
 	cmd := exec.Command(bin, "worker", id, shard, "--tier", tier)
 	cmd.Env = append(os.Environ(), "LZMC_CHILD=1")
+	cmd.SysProcAttr = &syscall.SysProcAttr{Pdeathsig: syscall.SIGKILL} // never outlive the checker process
 	out, err := cmd.Output()
 	close(stop)
 	if err != nil {
